@@ -71,16 +71,16 @@ type MsgInfo struct {
 }
 
 type Profile struct {
-	Known      map[int]bool
-	KnownList  []int
-	Rows       []FieldRow
-	RowsByMsg  map[int][]FieldRow
-	FieldsLen  int // len(_fields)
-	Msgs       map[int]*MsgInfo // from msgsTypes
+	Known       map[int]bool
+	KnownList   []int
+	Rows        []FieldRow
+	RowsByMsg   map[int][]FieldRow
+	FieldsLen   int              // len(_fields)
+	Msgs        map[int]*MsgInfo // from msgsTypes
 	MsgTypesLen int
-	NewFuncs   map[int]string // from newMesgFuncs: constructor name
+	NewFuncs    map[int]string // from newMesgFuncs: constructor name
 	NewFuncsLen int
-	Err        []string
+	Err         []string
 }
 
 func (w *World) profile() *Profile {
